@@ -87,6 +87,11 @@ func runOne(t *testing.T, plan *Plan) *RunResult {
 	if res == nil {
 		res = &RunResult{Plan: plan, Stats: NewRunStats(), Fired: map[string]int{}, IOCounts: map[byte]int{}}
 	}
+	if res.Post != nil && res.Viol == nil && !leak {
+		if v := res.Post(); v != nil {
+			res.Viol = v
+		}
+	}
 	if leak && res.Viol == nil {
 		res.Viol = &Violation{Prop: plan.Prop, Oracle: "goroutine-leak", Op: len(plan.Ops), OpKind: "run",
 			Msg: "at the end of the run a goroutine started by gkvlite is still blocked for ever (iterator producer never exits): " + msg}
@@ -259,7 +264,11 @@ func TestWorker(t *testing.T) {
 			res.Hashes = append(res.Hashes, r.Hash)
 		}
 		if len(res.Samples) < 3 && r.World != nil && (r.NonTriv || i > 20) {
-			res.Samples = append(res.Samples, append([]string{fmt.Sprintf("seed=%d", seed)}, TraceStrings(r.World.Trace, 40)...))
+			if r.Sample != nil {
+				res.Samples = append(res.Samples, append([]string{fmt.Sprintf("seed=%d", seed)}, r.Sample...))
+			} else {
+				res.Samples = append(res.Samples, append([]string{fmt.Sprintf("seed=%d", seed)}, TraceStrings(r.World.Trace, 40)...))
+			}
 		}
 		if r.Viol != nil {
 			full := &Plan{Prop: job.Prop, Profile: job.Prop, Seed: seed, Viol: r.Viol, Extra: r.Plan.Extra}
@@ -268,6 +277,12 @@ func TestWorker(t *testing.T) {
 			}
 			if r.Plan.Ops != nil {
 				full.Ops = r.Plan.Ops
+			}
+			if r.Plan.Con != nil {
+				full.Ops = nil
+				full.Con = r.Plan.Con
+				full.Sched = r.Plan.Sched
+				full.FixedSched = true
 			}
 			min := full
 			if !job.NoMin {
